@@ -204,7 +204,9 @@ def drift_program(rng, base):
     else:
         e = {'pos': ['T', {'x': ['(%d)' % base, base]}]}
     items = [{'k': 'pseudo', 'm': 'nop', 'ops': []} for _ in range(rng.randrange(3))]
-    items += [{'k': 'label', 'name': 'S'}, {'k': 'pseudo', 'm': 'li', 'ops': [R(), e]}]
+    the_li = {'k': 'pseudo', 'm': 'li', 'ops': [R(), e]}
+    back = rng.random() < 0.35        # the label lies *in front of* the li: it is "already laid out" when the li is expanded - and still moves
+    items += [{'k': 'label', 'name': 'S'}] + ([] if back else [the_li])
     for _ in range(rng.randrange(1, 7)):
         c = rng.randrange(6)
         if c == 0:
@@ -220,6 +222,8 @@ def drift_program(rng, base):
         else:
             items.append({'k': 'pseudo', 'm': 'mv', 'ops': [R(), R()]})
     items += [{'k': 'align', 'n': 2}, {'k': 'label', 'name': 'T'}, {'k': 'pseudo', 'm': 'ret', 'ops': []}]
+    if back:
+        items += [{'k': 'inst', 'm': 'lui', 'ops': [{'r': 5}, {'i': 0x12345}]} for _ in range(rng.randrange(3))] + [the_li, {'k': 'pseudo', 'm': 'ret', 'ops': []}]
     return items
 
 
@@ -235,7 +239,7 @@ def drift_case(asm, acc, case, compress):
     want = rng.choice([-2048, -2049, -2052, -2056, -2060, -2080, -2047, -2044, 2047, 2048, 2050, 2052, 2060, 2040, -3000, 100])
     shape = random.Random(seedtxt).randrange(4) if False else None
     items = drift_program(random.Random(seedtxt), 0)
-    e = items[[i for i, it in enumerate(items) if it['k'] == 'label' and it['name'] == 'S'][0] + 1]['ops'][1]
+    e = [it for it in items if it['k'] == 'pseudo' and it['m'] == 'li' and P.label_dependent(it['ops'][1])][0]['ops'][1]
     if 'pos' in e or ('sum' in e and 'lab' in e['sum'][0]):
         base = want - t
     else:
@@ -306,6 +310,14 @@ def run_case(asm, acc, case):
             # the name as a constant, and a constant is what an operand means
             preseed = {'labels': {it['name']: (it['value'] ^ 0x7f0) + 0x100 for it in items if it['k'] == 'const'}}
             acc['ctr']['programs_whose_constant_is_also_a_stale_table_entry'] += 1
+        if preseed is None and items and case['idx'] % 3 == 1:
+            # the caller's label table is left over from a build of a differently ordered source: own names, stale values, other order
+            names = list(dict.fromkeys(it['name'] for it in items if it['k'] == 'label'))
+            prng = random.Random('c05-pre-%s-%d' % (case['kind'], case['idx']))
+            prng.shuffle(names)
+            if len(names) > 1:
+                preseed = {'labels': {n: 2 * prng.randrange(0, 5000) for n in names}}
+                acc['ctr']['programs_with_a_leftover_label_table'] += 1
         ex = progcheck.examine(asm, items, compress, seed='%s-%d' % (case['kind'], case['idx']), nregs=case.get('nregs', 5), lines=lines, preseed=preseed, extern=extern)
         if extern and ex.ok and any(ex.labels_reported.get(k) != v for k, v in extern.items()):
             core.add_viol(acc, 'program %r (compress=%s): the caller\'s external symbol %r came back as %r' % (
